@@ -537,6 +537,101 @@ def _param_names(rec):
     return out[1:]
 
 
+def _adt_renames(all_adts, known_fields):
+    """{current type path: path in the tree the rules were written against} for renamed local types: a known type that is
+    gone is paired with a new type of the same module whose variants and fields are the same (names and types, the type's
+    own path apart), uniquely both ways."""
+    if not known_fields:
+        return {}
+    def shape(path, variants):
+        return sorted((vn, tuple((fn_, ty.replace(path, "Self")) for fn_, ty in fl)) for vn, fl in variants.items())
+    cur = {}
+    for k, a in all_adts.items():
+        if a.get("local"):
+            cur[k] = {v["name"]: [(f["name"], f["ty"]) for f in v["fields"]] for v in a["variants"]}
+    gone = [k for k in known_fields if k not in cur]
+    new = [k for k in cur if k not in known_fields]
+    parent = lambda k: k.rsplit("::", 1)[0] if "::" in k else ""
+    out = {}
+    for g in gone:
+        gs = shape(g, {vn: [tuple(x) for x in fl] for vn, fl in known_fields[g].items()})
+        # a struct's single variant carries the struct's own name: compare field lists only
+        def same(n):
+            ns = shape(n, cur[n])
+            if len(gs) == 1 and len(ns) == 1 and gs[0][0] == g.rsplit("::", 1)[-1] and ns[0][0] == n.rsplit("::", 1)[-1]:
+                return gs[0][1] == ns[0][1]
+            if gs == ns:
+                return True
+            # some variants renamed as well: same field lists, and at least half of the variant names still there
+            shared = len({v for v, _ in gs} & {v for v, _ in ns})
+            return len(gs) == len(ns) and sorted(f for _, f in gs) == sorted(f for _, f in ns) and 2 * shared >= len(gs)
+        cands = [n for n in new if parent(n) == parent(g) and same(n)]
+        if len(cands) == 1:
+            out[cands[0]] = g
+    # unique both ways
+    vals = list(out.values())
+    return {k: v for k, v in out.items() if vals.count(v) == 1}
+
+
+def _variant_renames(adts, known_fields):
+    """{adt: {current variant name: known name}}: a new variant name is paired with a vanished one carrying the same fields"""
+    out = {}
+    for k, a in adts.items():
+        kf = (known_fields or {}).get(k)
+        if not kf or a.get("kind") != "enum":
+            continue
+        cur = {v["name"]: [[f["name"], f["ty"]] for f in v["fields"]] for v in a["variants"]}
+        if len(cur) != len(kf):
+            continue
+        new = [n for n in cur if n not in kf]
+        gone = [n for n in kf if n not in cur]
+        m = {}
+        for n in new:
+            cands = [g for g in gone if kf[g] == cur[n]]
+            back = [n2 for n2 in new if cands and cur[n2] == kf[cands[0]]]
+            if len(cands) == 1 and len(back) == 1:
+                m[n] = cands[0]
+        if m:
+            out[k] = m
+    return out
+
+
+def _apply_variant_renames(d, ren):
+    if not ren:
+        return 0
+    n = 0
+
+    def walk(j):
+        nonlocal n
+        if isinstance(j, list):
+            for i, x in enumerate(j):
+                if isinstance(x, dict) and "downcast" in x and i + 1 < len(j) and isinstance(j[i + 1], dict) and "adt" in j[i + 1]:
+                    m = ren.get(j[i + 1]["adt"])
+                    if m and x["downcast"] in m:
+                        x["downcast"] = m[x["downcast"]]
+                        n += 1
+                walk(x)
+        elif isinstance(j, dict):
+            if "variant" in j and "adt" in j:
+                m = ren.get(j["adt"])
+                if m and j["variant"] in m:
+                    j["variant"] = m[j["variant"]]
+                    n += 1
+            for v in j.values():
+                if isinstance(v, (list, dict)):
+                    walk(v)
+    for rec in d["fns"].values():
+        walk(rec.get("blocks") or [])
+        walk(rec.get("vars") or [])
+    for k, m in ren.items():
+        for v in d["adts"].get(k, {}).get("variants", []):
+            if v["name"] in m:
+                v["was"] = v["name"]
+                v["name"] = m[v["name"]]
+                n += 1
+    return n
+
+
 def _fn_renames(all_fns, known_sigs):
     """{current key: key in the tree the rules were written against} for functions that were renamed: a known function
     that is gone is paired with a new function of the same parent path (module / impl) and the same signature, when that
@@ -698,6 +793,16 @@ class Program:
             with open(path) as fh:
                 texts[t] = fh.read()
             parsed[t] = json.loads(texts[t])
+        all_adts = {}
+        for t in factsmod.EXPECTED_TARGETS:
+            for k_, a_ in parsed[t].get("adts", {}).items():
+                all_adts.setdefault(k_, a_)
+        self.renamed_types = _adt_renames(all_adts, known_fields)              # current path -> the path the rules use
+        if self.renamed_types:
+            for t in factsmod.EXPECTED_TARGETS:
+                texts[t] = _apply_fn_renames(texts[t], self.renamed_types)
+                parsed[t] = json.loads(texts[t])
+        for t in factsmod.EXPECTED_TARGETS:
             for k_, rec_ in parsed[t].get("fns", {}).items():
                 all_fns.setdefault(k_, rec_)
         self.renamed_fns = _fn_renames(all_fns, inlinemod.load_known_sigs())   # current name -> the name the rules use
@@ -709,6 +814,10 @@ class Program:
             if d.get("schema") != factsmod.SCHEMA:
                 raise AnchorMissing("fact schema mismatch in %s" % t)
             self.targets[t] = d
+            vren = _variant_renames(d["adts"], known_fields)
+            if _apply_variant_renames(d, vren):
+                for k_, m_ in vren.items():
+                    self.renamed_fields.setdefault(k_, {}).update(m_)
             ren = _field_renames(d["adts"], known_fields)
             if _apply_field_renames(d, ren):
                 for (k_, v_), m_ in ren.items():
